@@ -78,7 +78,7 @@ def run_tlc(
     cfg: str,
     *,
     scratch: Path,
-    workers: int | str = "auto",
+    workers: int | str = 8,
     timeout: int = 900,
     dump: Optional[Path] = None,
     dump_dot: Optional[Path] = None,
